@@ -80,6 +80,51 @@ theorem body_unknown (bd : BDec) (L t : Nat) (rest : Bytes) (hL : 1 ≤ L)
   simp only [h]
   split <;> simp <;> omega
 
+/-- shape of the returned message w.r.t. the announced length -/
+def BodyWF (L : Nat) (o : Out) : Prop :=
+  (∀ bs, o.res = .msg (.bitfield bs) → bs.length = L - 1) ∧
+  (∀ i b d, o.res = .msg (.piece i b d) → d.length = L - 9) ∧
+  (∀ s t p tot d, o.res = .msg (.metadata s t p tot d) → d.length ≤ L - 2)
+
+theorem bodyExt_ok (bd : BDec) (L : Nat) (rest : Bytes) (hL : 2 ≤ L) :
+    BodyOK L rest (bodyExt expectedGuards bd L rest) ∧
+    BodyWF L (bodyExt expectedGuards bd L rest) := by
+  unfold bodyExt BodyOK BodyWF
+  split
+  · simp; omega
+  · rename_i sb rest2
+    simp only []
+    split
+    · -- unknown sub-id
+      split <;> simp <;> omega
+    · rename_i srow hs
+      obtain ⟨sf, s3, s4, s012, ssub⟩ := sub_rows sb.toNat srow hs
+      rcases ssub with h0|h0|h0|h0|h0
+      all_goals simp only [h0]
+      · simp [s012 (Or.inl h0), guardViolated]
+        split
+        · simp; omega
+        · split <;> simp <;> omega
+      · simp [s012 (Or.inr (Or.inl h0)), guardViolated]
+        split
+        · simp; omega
+        · split <;> simp <;> omega
+      · simp [s012 (Or.inr (Or.inr h0)), guardViolated]
+        split
+        · simp; omega
+        · split <;> simp <;> (try omega)
+          refine ⟨by omega, ?_⟩
+          intro s t p tot d _ _ _ _ hd
+          subst hd
+          simp only [List.length_drop, List.length_take]
+          omega
+      · simp [s3 h0, sf (Or.inl h0), guardViolated, failRes]
+        repeat' split
+        all_goals (simp_all <;> omega)
+      · simp [s4 h0, sf (Or.inr h0), guardViolated, failRes]
+        repeat' split
+        all_goals (simp_all <;> omega)
+
 theorem body_known (bd : BDec) (L t : Nat) (rest : Bytes) (hL : 1 ≤ L) (row : GuardRow)
     (h : findGuard expectedGuards t none = some row) :
     BodyOK L rest (body expectedGuards bd L t rest) := by
@@ -120,39 +165,46 @@ theorem body_known (bd : BDec) (L t : Nat) (rest : Bytes) (hL : 1 ≤ L) (row : 
   · simp [gext]
     split
     · simp; omega
-    · split
-      · simp; omega
-      · rename_i sb rest2
-        split
-        · -- unknown sub-id
-          split <;> simp <;> omega
-        · rename_i srow hs
-          obtain ⟨sf, s3, s4, s012, ssub⟩ := sub_rows sb.toNat srow hs
-          rcases ssub with h0|h0|h0|h0|h0
-          all_goals simp only [h0]
-          · simp [s012 (Or.inl h0)]
-            split
-            · simp; omega
-            · split <;> simp <;> omega
-          · simp [s012 (Or.inr (Or.inl h0))]
-            split
-            · simp; omega
-            · split <;> simp <;> omega
-          · simp [s012 (Or.inr (Or.inr h0))]
-            split
-            · simp; omega
-            · split <;> simp <;> omega
-          · simp [s3 h0, sf (Or.inl h0)]
-            repeat' split
-            all_goals (simp_all <;> omega)
-          · simp [s4 h0, sf (Or.inr h0)]
-            repeat' split
-            all_goals (simp_all <;> omega)
+    · exact (bodyExt_ok bd L rest (by omega)).1
 
 end Storrent.Props.C04
 
 namespace Storrent.Props.C04
 open Storrent Storrent.Wire
+
+theorem body_wf (bd : BDec) (L t : Nat) (rest : Bytes) (hL : 1 ≤ L) :
+    BodyWF L (body expectedGuards bd L t rest) := by
+  cases h : findGuard expectedGuards t none with
+  | none =>
+    unfold body BodyWF
+    simp only [h]
+    split <;> simp
+  | some row =>
+    have g := guard_rows t row h
+    obtain ⟨gf, g1, g5, g13, gbf, gpc, gport, gext, gt⟩ := g
+    unfold body BodyWF
+    simp only [h]
+    rcases gt with rfl|rfl|rfl|rfl|rfl|rfl|rfl|rfl|rfl|rfl|rfl|rfl|rfl|rfl|rfl|rfl
+    all_goals simp only [gf, failRes, guardViolated]
+    · simp [g1]; split <;> simp_all
+    · simp [g1]; split <;> simp_all
+    · simp [g1]; split <;> simp_all
+    · simp [g1]; split <;> simp_all
+    · simp [g5]; split <;> (try split) <;> simp_all
+    · simp [gbf]; split <;> (try split) <;> simp_all <;> omega
+    · simp [g13]; split <;> (try split) <;> simp_all
+    · simp [gpc]; split <;> (try split) <;> (try split) <;> simp_all <;> omega
+    · simp [g13]; split <;> (try split) <;> simp_all
+    · simp [gport]; split <;> (try split) <;> simp_all
+    · simp [g5]; split <;> (try split) <;> simp_all
+    · simp [g1]; split <;> simp_all
+    · simp [g1]; split <;> simp_all
+    · simp [g13]; split <;> (try split) <;> simp_all
+    · simp [g5]; split <;> (try split) <;> simp_all
+    · simp [gext]
+      split
+      · simp
+      · exact (bodyExt_ok bd L rest (by omega)).2
 
 theorem body_ok (bd : BDec) (L t : Nat) (rest : Bytes) (hL : 1 ≤ L) :
     BodyOK L rest (body expectedGuards bd L t rest) := by
@@ -239,5 +291,32 @@ example : (decode leanBDec [0,0,0,5,4,0,0,0,7]).res = .msg (.have 7) := by decid
 example : (decode leanBDec [0,0,0,2,14,0]).res = .err .parse := by decide
 example : (decode leanBDec [0,0,0,1,20,9]).res = .err .parse := by decide
 example : announced [0,32,0,0,5] > 1048576 ∧ 4 ≤ [0,32,0,0,5].length := by decide
+
+end Storrent.Props.C04
+
+namespace Storrent.Props.C04
+open Storrent Storrent.Wire
+
+/-- a returned message is well-formed w.r.t. the frame: a Bitfield carries exactly L-1
+    bytes, a Piece exactly L-9, a metadata payload at most L-2 -/
+theorem C04_wellformed (bd : BDec) (bs : Bytes) :
+    (∀ x, (decode bd bs).res = .msg (.bitfield x) → x.length = announced bs - 1) ∧
+    (∀ i b d, (decode bd bs).res = .msg (.piece i b d) → d.length = announced bs - 9) ∧
+    (∀ s t p tot d, (decode bd bs).res = .msg (.metadata s t p tot d) →
+        d.length ≤ announced bs - 2) := by
+  rw [decode_eq]
+  unfold decodeWith announced
+  by_cases h4 : bs.length < 4
+  · simp [h4]
+  · simp only [h4, if_false]
+    by_cases h0 : rdBE (List.take 4 bs) = 0
+    · simp [h0]
+    · simp only [h0, if_false]
+      by_cases hc : rdBE (List.take 4 bs) > expectedFrameCap
+      · simp [hc]
+      · simp only [hc, if_false]
+        cases hd : List.drop 4 bs with
+        | nil => simp
+        | cons t rest => exact body_wf bd _ t.toNat rest (by omega)
 
 end Storrent.Props.C04
